@@ -26,7 +26,7 @@ K = z3
 
 
 def _is_uf(t, name=None):
-    return z3.is_app(t) and t.decl().kind() == z3.Z3_OP_UNINTERPRETED and t.num_args() > 0 and (name is None or t.decl().name() == name)
+    return z3.is_app(t) and t.decl().kind() == z3.Z3_OP_UNINTERPRETED and t.num_args() > 0 and (name is None or T.ufname(t) == name)
 
 
 def depends_on(t, var):
@@ -90,7 +90,7 @@ def D(t, var):
         if kind == z3.Z3_OP_ITE:
             return z3.If(ch[0], rec(ch[1]), rec(ch[2]))
         if _is_uf(u):
-            name = u.decl().name()
+            name = T.ufname(u)
             a = ch[0]
             da = rec(a)
             f = T.UF1
@@ -161,7 +161,7 @@ def to_sympy(t, symtab=None, opaque=None):
         kind = u.decl().kind()
         ch = u.children()
         if z3.is_const(u) and kind == z3.Z3_OP_UNINTERPRETED:
-            n = u.decl().name()
+            n = T.ufname(u)
             if n not in symtab:
                 symtab[n] = sp.Symbol(n, real=True)
             return symtab[n]
@@ -183,7 +183,7 @@ def to_sympy(t, symtab=None, opaque=None):
         if kind == z3.Z3_OP_TO_REAL:
             return rec(ch[0])
         if _is_uf(u):
-            n = u.decl().name()
+            n = T.ufname(u)
             if opaque is not None:
                 return opaque(u)
             if n in _SP_FUN:
@@ -402,7 +402,7 @@ class Atomiser:
         """sympy expression of an exponent term.  sqrt/pow/exp stay native sympy powers (so that
         sqrt(a)**2 = a), logs and other transcendentals become atom symbols."""
         def opaque(u):
-            name = u.decl().name()
+            name = T.ufname(u)
             ch = u.children()
             if name == "sqrt":
                 return sp.sqrt(rec(ch[0]))
@@ -742,6 +742,23 @@ class Atomiser:
                 pos = z3.And(t1 > 0, t2 > 0)
                 c += [z3.Implies(z3.And(pos, ez > 0), z3.And((t1 < t2) == (a1 < a2), (t1 == t2) == (a1 == a2))),
                       z3.Implies(z3.And(pos, ez < 0), z3.And((t1 < t2) == (a1 > a2), (t1 == t2) == (a1 == a2)))]
+        # identities between hyperbolic / trigonometric atoms of one argument
+        by_arg = {}
+        for key, atom in self.atoms.items():
+            if ":" in key and key.split(":", 1)[0] in ("sin", "cos", "sinh", "cosh", "tanh", "tan"):
+                nm, arg = key.split(":", 1)
+                by_arg.setdefault(arg, {})[nm] = atom
+        for arg, d in by_arg.items():
+            if "sinh" in d and "cosh" in d:
+                c.append(d["cosh"] * d["cosh"] - d["sinh"] * d["sinh"] == 1)
+            if "tanh" in d and "cosh" in d:
+                c.append((1 - d["tanh"] * d["tanh"]) * d["cosh"] * d["cosh"] == 1)
+            if "tanh" in d and "sinh" in d and "cosh" in d:
+                c.append(d["tanh"] * d["cosh"] == d["sinh"])
+            if "sin" in d and "cos" in d:
+                c.append(d["sin"] * d["sin"] + d["cos"] * d["cos"] == 1)
+            if "tan" in d and "cos" in d and "sin" in d:
+                c.append(d["tan"] * d["cos"] == d["sin"])
         logs = list(self.__dict__.get("log_bases", {}).items())
         for i in range(len(logs)):
             for j in range(i + 1, len(logs)):
@@ -862,7 +879,7 @@ class Atomiser:
                 return r if p >= 0 else self.rf_inv(r)
             raise Unsupported("native power with non-integer exponent")
         if _is_uf(t):
-            name = t.decl().name()
+            name = T.ufname(t)
             if name in ("pow", "sqrt", "exp"):
                 r = self.const(z3.RealVal(1))
                 for b, e in self.merged_factors(t):
